@@ -217,6 +217,6 @@ def check_large(case, ctx):
 SUBCHECKS = [
     Sub("block_reduce", check, strategy=cases(), quick=400, thorough=2500, shards_quick=4,
         doc="BlockReduce.filter vs brute-force reduction over membership known by construction (values, own weights, coordinates, centres, extra coords, order)"),
-    Sub("large", check_large, strategy=blocks.big_cases, quick=8, thorough=40,
+    Sub("large", check_large, strategy=blocks.big_cases, quick=8, thorough=40, heavy=True,
         doc="20 000 - 120 000 points, up to 1 600 blocks: mean, sum and weighted average per block against numpy.bincount"),
 ]
